@@ -111,6 +111,13 @@ Rewrap(B)  == /\ status = "ok" /\ B # enc /\ Len(hist) = 1 /\ status' = "raised"
 Collect(B) == /\ status = "ok" /\ B # enc /\ Len(hist) = 1 /\ status' = "raised"
               /\ hist' = Append(hist, <<"collect", B>>) /\ UNCHANGED <<text, enc, codes>>
 
+\* np.concatenate([value, other]) with `other` = the letters of alphabet B encoded in B (encoded_array.py __array_function__): the operand
+\* held in another alphabet is presented in the first operand's alphabet, so the joined text is the two texts one after the other,
+\* or the call raises when a letter of B is not in the value's alphabet.  It never yields other letters.
+Join(B) == /\ status = "ok" /\ B # enc /\ Len(hist) = 1
+           /\ status' = IF Encodable(enc, Alphabets[B]) THEN "ok" ELSE "raised"
+           /\ hist' = Append(hist, <<"join", B>>) /\ UNCHANGED <<text, enc, codes>>
+
 \* array[...] = value, the value already encoded with alphabet B (encoded_array.py __setitem__): the value is presented to the
 \* array's alphabet like in Retarget, roles swapped; the array keeps its alphabet and must then spell the text, or the assignment raises
 AssignFrom(B) == /\ status = "ok" /\ B # enc /\ Len(hist) = 1 /\ text # <<>> /\ Encodable(B, text)
@@ -124,7 +131,7 @@ AssignFrom(B) == /\ status = "ok" /\ B # enc /\ Len(hist) = 1 /\ text # <<>> /\ 
 ReorderLabelList == /\ status = "ok" /\ Len(hist) = 1 /\ text # <<>>
                     /\ hist' = Append(hist, <<"reorder-labels", enc>>) /\ UNCHANGED <<text, enc, codes, status>>
 
-NextAll == Next \/ ReorderLabelList \/ (\E B \in Names : AssignFrom(B)) \/ ReverseRows \/ ScribbleThenEncodeAgain \/ (\E B \in Names : Rewrap(B)) \/ (\E B \in Names : Collect(B))
+NextAll == Next \/ ReorderLabelList \/ (\E B \in Names : AssignFrom(B)) \/ ReverseRows \/ ScribbleThenEncodeAgain \/ (\E B \in Names : Rewrap(B)) \/ (\E B \in Names : Collect(B)) \/ (\E B \in Names : Join(B))
 SpecAll == Init /\ [][NextAll]_vars
 
 \* ---------------------------------------------------------------- properties
